@@ -160,4 +160,18 @@ CommitSeesCurrent ==
 FailedSwapKeepsCell ==
   [][\A t \in Threads : (pc[t] = "s_failed" /\ pc'[t] = "idle") => cell'[Op(t).a] = cell[Op(t).a]]_vars
 Termination == <>AllDone
+
+\* ------------------------------------------------------------ refinement
+\* Design "cas" refines, for every atom, the abstract compare-and-set machine AtomCas.tla, whose safety is
+\* PROVED for any number of threads in AtomCasProof.tla.  A thread is in an attempt on atom a from its snapshot
+\* to its commit / retry / failure; the locks make Snap and Commit atomic.
+Active(t, a) == /\ ~Done(t) /\ Op(t).a = a
+                /\ pc[t] \in {"s_fn", "f_read", "f_swait", "f_sset", "s_failed", "s_install", "c_wait", "c_commit"}
+AbsPc(t, a) == IF ~Active(t, a) THEN "idle"
+               ELSE IF pc[t] \in {"s_install", "c_wait", "c_commit"} THEN "commit" ELSE "fn"
+Cas(a) == INSTANCE AtomCas WITH cell <- cell[a], ver <- ver[a],
+                                pc <- [t \in Threads |-> AbsPc(t, a)],
+                                old <- [t \in Threads |-> IF Active(t, a) THEN old[t] ELSE 0],
+                                seen <- [t \in Threads |-> IF Active(t, a) THEN seen[t] ELSE 0],
+                                tmp <- [t \in Threads |-> IF AbsPc(t, a) = "commit" THEN tmp[t] ELSE 0]
 =============================================================================
